@@ -18,6 +18,10 @@ CHECKS['C12'] = dict(tech='exhaustive enumeration of all 2^16 half patterns + bo
              text='Every conversion direction (bits->float, float->bits, bits->FPNum->bits in same/wider/narrower format, pack/unpack) is checked bit-exactly against the platform encoding: complete for half precision, sign x exponent x mantissa-boundary grid plus random patterns for single/double. FPNum add/sub/mul/neg/abs/div2/compare are compared with exact rationals. Exploration.',
              note='Trusted: struct (IEEE-754 binary16/32/64), fractions.Fraction. NaN payloads excepted; narrowing only on representable values.',
              ref='DESIGN.md 2/C12')
+CHECKS['C14'] = dict(tech='exhaustive enumeration of small formats x all operand pairs + Hypothesis wide formats against exact rational (Fraction) / scaled-integer reference',
+             text='Every signed format with total width <= 4 (quick) / <= 6 (thorough) and every operand pair is enumerated for adder, subtractor, sign, comparator and multiplier (mixed operand/result formats); formats up to 32 bits are sampled. Exploration: complete below the bound.',
+             note='Trusted: Fraction / Python integers. Comparator judged only when a-b is representable; multiplier only when the result has no more fraction bits than the exact product.',
+             ref='DESIGN.md 2/C14')
 NOT_APPLICABLE = {}
 
 def main():
